@@ -413,6 +413,35 @@ pub fn gen_env(mt: &str, src: &mut Src) -> EnvCase {
             c.b2.replace_range(0..1, d);
             c.near_miss = "direction".into();
         }
+        5 => {
+            // white space padding inside the braces: the block is then of the wrong length / shape
+            match src.below(6) {
+                0 => {
+                    c.b1.push(' ');
+                    c.near_miss = "b1-trailing-space".into();
+                }
+                1 => {
+                    c.b1.insert(0, ' ');
+                    c.near_miss = "b1-leading-space".into();
+                }
+                2 => {
+                    c.b2.push_str("  ");
+                    c.near_miss = "b2-trailing-space".into();
+                }
+                3 => {
+                    c.b2.insert(0, ' ');
+                    c.near_miss = "b2-leading-space".into();
+                }
+                4 => {
+                    c.b1.push_str("\r\n");
+                    c.near_miss = "b1-trailing-crlf".into();
+                }
+                _ => {
+                    c.b2.push('\n');
+                    c.near_miss = "b2-trailing-lf".into();
+                }
+            }
+        }
         3 | 4 => {
             if mt == "103" {
                 c.marker = src
